@@ -9,7 +9,7 @@ func init() {
 			"delegating records the lock↔intermediary connection and a bonded synthetic lock before staking, undelegating removes both before unstaking; every flow validates lock ownership (and single-coin locks) first; a lock can be force-unlocked through superfluid only when its synthetic lock is already unlocking; the refresh adjusts stake by the difference in the direction of the comparison.",
 		NotCovered:  []string{"stake = risk-adjusted value to within one unit per lock", "supply neutrality as a number", "drift over epochs"},
 		Assumptions: []string{"staking keeper Delegate / InstantUndelegate semantics", "cache-context helper (C17)"},
-		MinObl:      77,
+		MinObl:      85,
 		Run:         runC11,
 	})
 }
@@ -117,6 +117,18 @@ func runC11(c *rules.Ctx) {
 	c.HasCall(DS, "sumtree.Tree.Decrease", nil, true, "the accumulation is decreased on success", "exists")
 	c.CallWhere(LK+"AddTokensToLockByID", "sumtree.Tree.Increase", 0, "lockupkeeper.Keeper.accumulationStore(k,ctx,lockupkeeper.Keeper.GetSyntheticLockupByUnderlyingLockId(...)#0.SynthDenom)", 1, "lockupkeeper.accumulationKey(lockupkeeper.Keeper.GetSyntheticLockupByUnderlyingLockId(...)#0.Duration)", "a top-up is accumulated in the marker's duration bucket", "synth-key")
 	c.CallWhere(LK+"removeTokensFromLock", "sumtree.Tree.Decrease", 0, "lockupkeeper.Keeper.accumulationStore(k,ctx,lockupkeeper.Keeper.GetSyntheticLockupByUnderlyingLockId(...)#0.SynthDenom)", 1, "lockupkeeper.accumulationKey(lockupkeeper.Keeper.GetSyntheticLockupByUnderlyingLockId(...)#0.Duration)", "a slash leaves the marker's duration bucket", "synth-key")
+	// ---- unbond-convert-and-stake: a bonded lock is undelegated (stake burned, connection removed) before it is converted
+	const UCS = K + "UnbondConvertAndStake"
+	c.Let("MT", "superfluidkeeper.Keeper.getMigrationType(k,ctx,lockID)#1")
+	c.ReachedWhen(UCS, "superfluidkeeper.Keeper.undelegateCommon", "eq({MT},0)", "a superfluid-bonded lock always goes through undelegateCommon (minted stake burned, connection and marker removed)")
+	c.CheckedCallOpt(UCS, "superfluidkeeper.Keeper.undelegateCommon", []string{"k", "ctx", "sender", "lockID"}, "…for the sender's lock, and its failure aborts the conversion", "", false)
+	c.NeverAfter(UCS, "superfluidkeeper.Keeper.convertLockToStake", "superfluidkeeper.Keeper.undelegateCommon", "the undelegation precedes the conversion that force-unlocks and deletes the lock")
+	c.ConstValue("x/superfluid/keeper", "SuperfluidBonded", "0")
+	// ---- who may create / delete the bookkeeping records
+	c.WhoMayCall(K+"DeleteIntermediaryAccount", []string{}, "intermediary accounts are never deleted while the chain runs (an account with no delegation this epoch is refreshed again when the price recovers)")
+	c.WhoMayCall(K+"SetIntermediaryAccount", []string{"superfluidkeeper.Keeper.GetOrCreateIntermediaryAccount", "superfluidkeeper.Keeper.InitGenesis"}, "intermediary accounts are created on first delegation (or imported)")
+	c.WhoMayCall(K+"DeleteLockIdIntermediaryAccountConnection", []string{"superfluidkeeper.Keeper.undelegateCommon"}, "a lock's connection is removed only by undelegation")
+	c.WhoMayCall(K+"SetLockIdIntermediaryAccountConnection", []string{"superfluidkeeper.Keeper.SuperfluidDelegate", "superfluidkeeper.Keeper.InitGenesis"}, "a lock's connection is created only by delegation (or imported)")
 	// lockup side: BeginUnlock refuses locks with synthetic locks (shared with C06)
 	c.FailsWhen("x/lockup/keeper.Keeper.BeginUnlock", "lockupkeeper.Keeper.HasAnySyntheticLockups(k,ctx,lockupkeeper.Keeper.GetLockByID(k,ctx,lockID)#0.ID)", "a lock cannot start unlocking while it has a synthetic (superfluid) lock", rules.GuardOpt{Before: "lockupkeeper.Keeper.beginUnlock"})
 }
